@@ -15,7 +15,16 @@ pub fn worlds(net: &Net, tier: Tier, idx: u64) -> Vec<World> {
     let k = idx as usize;
     let speeds: Vec<f64> = (0..m).map(|e| [10.0, 30.0, 60.0][(e + k) % 3]).collect();
     let hs = [0i16, 90, 180, 270, 350, 45, 200];
-    let headings: Vec<(i16, i16)> = (0..m).map(|e| (hs[(e * 3 + k) % 7], hs[(e * 5 + k / 7 + 1) % 7])).collect();
+    // heading tables (start heading, end heading) per edge, three patterns rotating with the net: all different starts;
+    // starts from two values only (consecutive edges often enter with the same heading they were entered with);
+    // one start heading for every edge, straight and curved edges alternating
+    let headings: Vec<(i16, i16)> = (0..m)
+        .map(|e| match (k / 3) % 3 {
+            0 => (hs[(e * 3 + k) % 7], hs[(e * 5 + k / 7 + 1) % 7]),
+            1 => ([0i16, 90][(e + k) % 2], hs[(e * 5 + k / 7 + 1) % 7]),
+            _ => (180, if e % 2 == 0 { 180 } else { hs[(e * 5 + k / 7 + 1) % 7] }),
+        })
+        .collect();
     let delays = [0.25, 0.5, 1.0, 1.5, 2.0, 2.5, 3.0, 9.5];
     // (speed unit, model distance unit, model time unit, feature distance unit, feature time unit, delay unit)
     let units: Vec<(SpeedUnit, DistanceUnit, TimeUnit, DistanceUnit, TimeUnit, TimeUnit)> = vec![
